@@ -77,6 +77,11 @@ def run_batch(ctx, n, with_model=True):
                                           {"text": text, "env": common.enc_env(e2), "used": a, "fresh": b})
             extra = {("zz_extra_%d" % i): rng.choice([1, "x", None, 2.5]) for i in range(rng.randint(1, 3))}
             expect_same("extra keyword arguments", lambda: ev(**env, **extra), list(extra))
+            # extra keyword arguments named like something the library or the generated code itself uses
+            for nm in rng.sample(gen.host_names(), 6):
+                if nm not in env and nm != prog.name:
+                    x2 = {nm: rng.choice([1, "x", None, len, 2.5])}
+                    expect_same("extra keyword argument named like a name of the generated code / host language", lambda: ev(**env, **x2), nm)
             expect_same("argument order", lambda: ev(**dict(reversed(list(env.items())))), None)
             expect_same("experiment name", lambda: ev_renamed(**env), renamed.name)
             expect_same("splitter declaration order / repetition", lambda: ev_permuted(**env), permuted.splitters)
